@@ -16,6 +16,9 @@ ALPHAS = {'REQ': space.alphabet('AND', 'XOR', 'GT', 'NOT'), 'FULL': space.FULL, 
 
 def plan(tier):
     t = [{'kind': 'ops'}, {'kind': 'wideops'}]
+    for n in (1, 2, 3, 4):
+        for window in (None, 4, 3, 2):
+            t.append({'kind': 'prefix', 'n': n, 'window': window, 'Ks': list(range(2, 15 if window is None else 25))})
     for pat in space.DEEP_PATTERNS:
         for L in space.DEEP_LENGTHS[tier]:
             for st_ in ('fwd', 'rev'):
@@ -37,7 +40,7 @@ def plan(tier):
 
 def describe(tier):
     return {
-        'rule': 'wide: every n-ary type with 255/256/257/300 operands over a stated operand alphabet (uniform, alternating, one deviating or Undefined operand at the first/middle/last/256th position); deep: chains of 1200/3000 (thorough 7000) gates, six patterns, both storage orders x all 27 partial assignments x five entry points; operators: every gate type x every operand vector over {False,True,Undefined} (arity<=4 for n-ary); '
+        'rule': 'prefix: densely shared circuits (gate k reads all / the last 2-4 earlier nodes; 2..14 / 2..24 gates, 1-4 inputs, three type cycles) x all 3^n partial assignments x five entry points; wide: every n-ary type with 255/256/257/300 operands over a stated operand alphabet (uniform, alternating, one deviating or Undefined operand at the first/middle/last/256th position); deep: chains of 1200/3000 (thorough 7000) gates, six patterns, both storage orders x all 27 partial assignments x five entry points; operators: every gate type x every operand vector over {False,True,Undefined} (arity<=4 for n-ary); '
         'circuits: every circuit of F(n,k,A) x all 3^n partial assignments x {absent, explicit Undefined} x '
         '{evaluate_full_circuit, evaluate_circuit (default outputs = all sinks, and outputs=[g] for every g), '
         'evaluate_circuit_outputs}; soundness against all completions, monotonicity along every covering pair '
@@ -412,11 +415,40 @@ def check_deep(acc, pattern, L, storage):
     from cirbo.core.circuit.operators import Undefined
 
     c, net = space.deep_chain(pattern, L, storage)
+    return _check_partial(acc, c, net, {'deep_chain': pattern, 'length': L, 'storage': storage}, ('deep', pattern, L))
+
+
+PREFIX_TYPES = (('AND', 'OR', 'XOR'), ('NAND', 'NOR', 'NXOR'), ('XOR', 'AND', 'NOR', 'OR'))
+
+
+def prefix_net(n, K, types, window):
+    """densely shared circuit: gate k reads ALL earlier nodes oldest-first (window None) or the last `window` of
+    them; gate types cycle through `types`"""
+    ins = [f'x{i}' for i in range(n)]
+    gates = {i: ('INPUT', ()) for i in ins}
+    nodes = list(ins)
+    for k_ in range(K):
+        ops = tuple(nodes if window is None else nodes[-window:])
+        if len(ops) == 1:
+            ops = ops * 2
+        gates[f'p{k_}'] = (types[k_ % len(types)], ops)
+        nodes.append(f'p{k_}')
+    return refmodel.Net(ins, [nodes[-1], nodes[len(nodes) // 2], nodes[n]], gates)
+
+
+def check_prefix(acc, n, K, ti, window):
+    net = prefix_net(n, K, PREFIX_TYPES[ti], window)
+    c = space.build_from_net(net)
+    return _check_partial(acc, c, net, {'prefix_circuit': [n, K, ti, window]}, ('prefix', n, K, window))
+
+
+def _check_partial(acc, c, net, case, tag):
+    from cirbo.core.circuit.operators import Undefined
+
     ref = net.tables()
     n = len(net.inputs)
     mask = (1 << (1 << n)) - 1
     iv = refmodel.input_vectors_cached(n)
-    case = {'deep_chain': pattern, 'length': L, 'storage': storage}
     acc.states += 1
     st = (False, True, Undefined)
     results = {}
@@ -471,7 +503,7 @@ def check_deep(acc, pattern, L, storage):
                     if _isb(v) and rq.get(l) is not v:
                         acc.violation(f'{site}/non-monotone', case, f'{l}: {v} under {p}, {rq.get(l)!r} with input {pos} := {b}')
                         break
-    acc.outcome('defined', ('deep', pattern, L))
+    acc.outcome('defined', tag)
 
 
 WIDE_ARITIES = (255, 256, 257, 300)
@@ -566,6 +598,11 @@ def run_task(task, acc):
         return check_wide_ops(acc)
     if task['kind'] == 'deep':
         return check_deep(acc, task['pattern'], task['L'], task['storage'])
+    if task['kind'] == 'prefix':
+        for K in task['Ks']:
+            for ti in range(len(PREFIX_TYPES)):
+                check_prefix(acc, task['n'], K, ti, task['window'])
+        return
     alpha = ALPHAS[task['alpha']]
     if task['kind'] == 'req':
         for gates in space.enum_gates(task['n'], task['k'], alpha, space.prefix_from_task(task)):
@@ -584,6 +621,8 @@ def replay(case, acc):
         return check_deep(acc, case['deep_chain'], case['length'], case['storage'])
     if 'arity' in case:
         return check_wide_ops(acc)
+    if 'prefix_circuit' in case:
+        return check_prefix(acc, *case['prefix_circuit'])
     if 'gates' in case:
         n, gates, _ = space.spec_from_json(case)
         if 'scenario' in case:
